@@ -11,7 +11,7 @@ Fragment
   values      None, True/False, parameters / locals, `float('inf')`, `float('-inf')`, tuples only in `a, b = e1, e2` and `all((..))`
   attributes  `r.state|value|spin` on a result; the same on a value that may be None -> arAttr (AttributeError on None);
               `o.best` on an AnnealResults; `self.best = e` -> arSetBest
-  conditions  `x is None`, `x is not None` (x may be None), `not`, `and` / `or` (short circuit; later operands may raise ->
+  conditions  `x is None`, `x is not None` (x may be None), `not` (also on a statically decided `isinstance`), `and` / `or` (short circuit; later operands may raise ->
               arAndE / arOrE), `<` `<=` `>` `>=` on numbers -> arLt / arLe, on results -> the generated `AnnealResult.__lt__` /
               `__le__` (left operand that may be None -> arOptOp, TypeError), `==` / `!=` on results -> the generated
               `AnnealResult.__eq__`, on numbers / dicts / bools -> decidable equality, `all((a, b, ..))` -> arAll,
@@ -19,7 +19,9 @@ Fragment
               form is its own registry entry); an `if` on it keeps the one branch
   calls       `AnnealResult(s, v, f)`, `AnnealResults(it)` -> arConstruct of the generated `__init__`, `_recompute_best(o)`,
               `d.copy()` on a state, `spin_to_boolean` / `boolean_to_spin` (must be imported from qubovert.utils),
-              a module-level function that is one `return e` (inlined: `e` on the evaluated arguments),
+              a module-level function that is one `return e` (inlined: `e` on the evaluated arguments), a module-level
+              procedure called as a statement on variables (`_adopt_best(self, other)`: its statements with the
+              parameters renamed to the arguments, see `procedure_body`),
               `filter(f, it)`, `(e for x in it)`, `lambda x: e`, `f(x)` on a function parameter, methods of a result
               (`r.copy()`, `r.to_boolean()`, `r.to_spin()`), methods of the receiver (`self.append(x)`, ...), and
               `super().m(..)` for the list methods of the prelude — receiver-changing calls only as a whole statement,
@@ -218,6 +220,8 @@ class FnExt(T.Fn):
             raise Untranslatable("attribute .%s of a %s" % (n.attr, t), n)
         if isinstance(n, ast.UnaryOp) and isinstance(n.op, ast.Not):
             v, t = self.expr(n.operand, env)
+            if t == "Static":               # `not isinstance(..)`: decided by the registered type, like isinstance itself
+                return {"true": "false", "false": "true"}[v], "Static"
             if t != "Bool":
                 raise Untranslatable("`not` on a %s" % t, n)
             return "(!%s)" % v, "Bool"
@@ -362,6 +366,45 @@ class FnExt(T.Fn):
         if len(body) != 1 or not isinstance(body[0], ast.Return) or body[0].value is None:
             return None
         return h
+
+    def procedure_body(self, n, env):
+        """`helper(x, y)` where `helper` is a module-level function of this file that is not in the registry, has plain
+        positional parameters, no `return`, binds no local (its statements only assign attributes, branch and call) and
+        every argument is a distinct variable of the caller: the body with each parameter renamed to its argument
+        (Python passes the objects themselves, so `results.best = e` in the helper is `self.best = e` in the caller);
+        None when `n` is not such a call"""
+        import copy
+        if not (isinstance(n, ast.Call) and isinstance(n.func, ast.Name)) or n.keywords or forms(n.func.id):
+            return None
+        hits = [x for x in self.tree.body if isinstance(x, ast.FunctionDef) and x.name == n.func.id]
+        if len(hits) != 1:
+            return None
+        h, a = hits[0], hits[0].args
+        if h.decorator_list or a.vararg or a.kwarg or a.kwonlyargs or a.posonlyargs or a.defaults:
+            return None
+        if len(a.args) != len(n.args) or not all(isinstance(x, ast.Name) and x.id in env for x in n.args):
+            return None
+        if len({x.id for x in n.args}) != len(n.args):
+            return None
+        body = [x for x in h.body if not (isinstance(x, ast.Expr) and isinstance(x.value, ast.Constant)
+                                          and isinstance(x.value.value, str))]
+        params = [p.arg for p in a.args]
+        for x in body:
+            for y in ast.walk(x):
+                if isinstance(y, (ast.Return, ast.Yield, ast.YieldFrom, ast.Global, ast.Nonlocal, ast.Lambda,
+                                  ast.FunctionDef, ast.ListComp, ast.GeneratorExp, ast.SetComp, ast.DictComp)):
+                    return None
+                if isinstance(y, ast.Name) and isinstance(y.ctx, (ast.Store, ast.Del)):
+                    return None
+                if isinstance(y, ast.Name) and y.id not in params and y.id in env:
+                    return None              # a global of the helper that a variable of the caller would capture
+        ren = dict(zip(params, [x.id for x in n.args]))
+        out = copy.deepcopy(body)
+        for x in out:
+            for y in ast.walk(x):
+                if isinstance(y, ast.Name) and y.id in ren:
+                    y.id = ren[y.id]
+        return out
 
     def args_of(self, n):
         if n.keywords or any(isinstance(a, ast.Starred) for a in n.args):
@@ -548,6 +591,17 @@ class FnExt(T.Fn):
         if isinstance(s, ast.Expr):
             oc = self.out_call(s.value, env)
             if oc is None:
+                inl = self.procedure_body(s.value, env)
+                if inl is not None:
+                    # `helper(a, b)` as a statement, `helper` a module-level procedure: its statements, with the
+                    # parameters renamed to the argument variables, then what follows the call
+                    self.inlining = getattr(self, "inlining", 0) + 1
+                    try:
+                        if self.inlining > 3:
+                            raise Untranslatable("nested helper calls", s)
+                        return self.block(inl + rest, env, k, ind)
+                    finally:
+                        self.inlining -= 1
                 raise Untranslatable("expression statement that is not a call on the receiver", s)
             return "arSeq (%s) (fun (_ : %s) (self : ArObj) =>\n%s%s)" % (oc[0], self.ty(oc[1]), pad, cont(env))
         if isinstance(s, ast.Assign) and len(s.targets) == 1:
